@@ -42,6 +42,7 @@ class HMFMonitor:
         self.last_chi2 = None    # chi^2 of a.g after the most recent factor update
         self.last_err = 0.0      # bound on the rounding error of evaluating it
         self.nonneg_data = nonneg_data
+        self.zero_component = False   # normbase() was asked to normalise an identically zero component (kmeans cluster of zero spectra)
         self.direct = False      # astep()/gstep() called directly by the check: the iteration-level preconditions do not apply
         self.updates = {'astep': 0, 'gstep': 0, 'astepnn': 0, 'gstepnn': 0, 'normbase': 0}
 
@@ -219,6 +220,8 @@ def normbase_is_rms_of_components(self, result):
     MON.seen('normbase_is_rms_of_components')
     MON.updates['normbase'] += 1
     want = R.rms_rows(self.g)
+    if not (want > 0).all():
+        MON.zero_component = True        # a component that is identically zero (or already non-finite) is being normalised
     if np.shape(result) != want.shape:
         return MON.reject('unit-rms', 'normbase returned shape %r' % (np.shape(result),))
     dev = float(np.max(np.abs(np.asarray(result, dtype=np.float64) - want) / np.maximum(want, np.finfo(float).tiny)))
@@ -409,6 +412,80 @@ def live_objects(out, tag, factories, orders, exempt=(), volatile=()):
                         dirty.add(('in', l2, k2))
 
 
+def _plant_zero_spectra(rng, s, w, K, nonneg, p_zero=0.1, p_spike=0.06, forbid=()):
+    """Standing sub-class (F-P2): one or two spectra that are identically zero *with positive weights* (an object that was
+    observed and has no flux, or whose flux the non-negative mode clipped away), or that are zero except in one pixel.
+    In the default mode they are only planted where the pixel sub-problems keep full rank without them (N >= K + 4).
+    Returns (rows that are identically zero, rows with a single non-zero pixel); s is modified in place."""
+    N, M = s.shape
+    if not nonneg and N < K + 4:
+        return [], []
+    if N < K + 3:
+        # fewer spectra with signal than components is not a factorisation problem (the components are initialised from the
+        # spectra that have signal: F-P3)
+        return [], []
+    if nonneg:
+        p_zero, p_spike = max(p_zero, 0.15), 0.15
+    r = rng.random()
+    cand = [i for i in range(N) if i not in forbid and (w[i] > 0).sum() >= 2]
+    if not cand or r >= p_zero + p_spike:
+        return [], []
+    keep = s.copy()
+    zero, spike = [], []
+    if r < p_zero:
+        zero = sorted(rng.sample(cand, 2 if (len(cand) >= 2 and N >= K + 6 and rng.random() < 0.3) else 1))
+        s[zero, :] = 0.0
+    else:
+        i = rng.choice(cand)
+        pix = np.flatnonzero(w[i] > 0)
+        if not nonneg:
+            # default mode: kmeans may make this spectrum a component of its own, supported on one pixel; a spectrum in which that
+            # pixel is masked then has a singular G_i (LinAlgError on HEAD - outside the full-rank domain): use a pixel nobody masks
+            pix = np.flatnonzero((w > 0).all(0))
+        if pix.size == 0:
+            return [], []
+        j = int(rng.choice(pix.tolist()))
+        v = abs(s[i, j]) + 0.1 * float(np.sqrt(np.mean(keep ** 2)))
+        s[i, :] = 0.0
+        s[i, j] = v
+        spike = [i]
+    if (s.sum(0) == 0).any() or ((s * w).sum(0)[(w.sum(0) > 0)] == 0).any():
+        s[...] = keep                      # would create an all-zero column (documented limitation) - leave the case as it was
+        return [], []
+    return zero, spike
+
+
+def _check_zero_spectra(out, case, a, where):
+    """the coefficients of a spectrum that is identically zero (with positive weights) are zero: the unique optimum"""
+    rows = case.get('zero_spectra') or []
+    if not rows:
+        return
+    big = float(np.max(np.abs(a))) if a.size else 0.0
+    worst = float(np.max(np.abs(a[rows]))) if np.isfinite(a[rows]).all() else float('inf')
+    out.expect(worst <= 1e-12 * big, 'zero-spectrum',
+               '%s: coefficients of the identically zero spectra %r are not zero (max |a| = %.3g, largest coefficient %.3g)' % (
+                   where, rows, worst, big))
+
+
+def _count_planted(out, case):
+    mode = 'nonneg' if case['nonnegative'] else 'default'
+    if case.get('zero_spectra'):
+        out.count('hmf_zero_spectrum_cases_' + mode)
+    if case.get('spike_spectra'):
+        out.count('hmf_single_pixel_spectrum_cases_' + mode)
+
+
+def _contract_failure(out, e, where):
+    """A contract rejected a call.  (The mechanism F-P3 - kmeans gives the identically zero spectra a cluster of their own, that
+    initial component is identically zero, normbase() is 0 and g /= 0 turns every component and coefficient into NaN - was
+    reported by this check, repaired in /repo (001fee1) and is asserted like everything else since; the observation that a
+    zero component was normalised is kept in the message.)"""
+    clause, msg, detail = MON.failure or ('contract', str(e), {})
+    if MON.zero_component:
+        msg += ' [an identically zero component was handed to normbase()]'
+    out.fail(clause, '%s [%s; %s]' % (msg, e, where), **detail)
+
+
 def _lists(a):
     return np.asarray(a).tolist()
 
@@ -437,6 +514,8 @@ class C15(Check):
             'hmf_direct: astep/gstep/astepnn/gstepnn called directly on objects whose a, g were set (random, or from a solve), incl. pixels without '
             'data in any spectrum for epsilon > 0 and spectra without data, exact-optimum steps also compared with an independent dense SVD '
             'least-squares solve; hmf_large_n: 1000/1024/2000/2001/2048/4097 spectra solved twice with one seed under different global RNG states; '
+            'standing sub-class F-P2 (10-20 % of the HMF cases, both modes): one or two identically zero spectra with positive weights, or a spectrum '
+            'that is zero except in one pixel - all clauses apply and the zero spectrum must get zero coefficients; '
             'pca_solve on float32 rank-K+noise spectra with masked pixels and fully masked columns, nkeep 1-4, niter 1-8, '
             'maxiter 0-2.  Non-trivial: computechi2 with >= 2 columns and >= 1 zero weight; pcomp with >= 2 variables; '
             'HMF with masked pixels and K >= 2; pca_solve with masked pixels and nkeep >= 2; distinct by hash of the input.')
@@ -474,6 +553,8 @@ class C15(Check):
         'hmf_shape:spectra_eq_K', 'hmf_shape:spectra_eq_K_plus_1', 'hmf_shape:K_eq_1', 'hmf_shape:pixels_eq_K_plus_1',
         'hmf_shape:pixels_eq_K_plus_2', 'pca_shape:spectra_eq_nkeep', 'pca_shape:nkeep_eq_1', 'pca_shape:pixels_eq_nkeep_plus_1',
         'pca_shape:pixels_eq_spectra', 'pca_shape:pixels_eq_spectra_plus_1',
+        'hmf_zero_spectrum_cases_nonneg', 'hmf_zero_spectrum_cases_default', 'hmf_single_pixel_spectrum_cases_nonneg',
+        'hmf_single_pixel_spectrum_cases_default',
         'hmf_direct_steps', 'hmf_direct_dataless_column_gsteps', 'hmf_direct_dataless_spectrum_gsteps', 'hmf_direct_reference_optimum_checks',
         'hmf_direct_from_solve', 'hmf_large_n:1000', 'hmf_large_n:1024', 'hmf_large_n:2000', 'hmf_large_n:2001', 'hmf_large_n:2048',
         'hmf_large_n:4097', 'hmf_same_seed_pairs_above_2000_spectra',
@@ -769,6 +850,7 @@ class C15(Check):
                 w[:, :edges[0]] = 0
             if edges[1]:
                 w[:, M - edges[1]:] = 0
+        zero, spike = _plant_zero_spectra(rng, s, w, K, nonneg)
         if cls == 'hmf_exact':
             eps = rng.choice([None, 0.0])
         elif cls == 'hmf_smooth':
@@ -777,6 +859,7 @@ class C15(Check):
             eps = rng.choice([None, None, 0.0, 0.1, 10.0, 1e3])
         return {'kind': 'hmf', 'spectra': _lists(s), 'invvar': _lists(w), 'K': K, 'n_iter': rng.randint(2, 8),
                 'seed': 0 if rng.random() < 0.12 else rng.randint(0, 2 ** 31 - 1), 'epsilon': eps, 'nonnegative': nonneg, 'masked_edges': edges,
+                'zero_spectra': zero, 'spike_spectra': spike,
                 'global_seeds': [rng.randint(0, 2 ** 31 - 1), rng.randint(0, 2 ** 31 - 1)]}
 
     HMF_SHAPES = ('spectra_eq_K', 'spectra_eq_K_plus_1', 'K_eq_1', 'pixels_eq_K_plus_1', 'pixels_eq_K_plus_2')
@@ -800,7 +883,8 @@ class C15(Check):
             M = K + 2
         nonneg = rng.random() < 0.35
         s, w = _spectral_matrix(g, N, M, K, nonneg, maskfrac, 'keep')
-        return {'kind': 'hmf', 'shape': shape, 'spectra': _lists(s), 'invvar': _lists(w), 'K': K, 'n_iter': rng.randint(2, 5),
+        zero, spike = _plant_zero_spectra(rng, s, w, K, nonneg, p_zero=0.15 if nonneg else 0.1)
+        return {'kind': 'hmf', 'shape': shape, 'zero_spectra': zero, 'spike_spectra': spike, 'spectra': _lists(s), 'invvar': _lists(w), 'K': K, 'n_iter': rng.randint(2, 5),
                 'seed': rng.randint(0, 2 ** 31 - 1), 'epsilon': rng.choice([None, None, 0.0, 0.1, 10.0]), 'nonnegative': nonneg,
                 'masked_edges': [0, 0], 'global_seeds': [rng.randint(0, 2 ** 31 - 1), rng.randint(0, 2 ** 31 - 1)]}
 
@@ -837,6 +921,7 @@ class C15(Check):
                     cols = sorted(set(cols) | {j, j + 1})                          # two adjacent dataless pixels
             if rng.random() < 0.25:
                 rows = [rng.randrange(N)]
+        zero, spike = _plant_zero_spectra(rng, s, w, K, nonneg, p_zero=0.2 if nonneg else 0.1, forbid=rows)
         steps = rng.choice([['gstep'], ['astep'], ['gstep', 'astep'], ['astep', 'gstep'], ['gstep', 'gstep', 'astep']])
         if cols and 'gstep' not in steps:
             steps = ['gstep'] + steps
@@ -847,7 +932,7 @@ class C15(Check):
         if nonneg:
             a0, g0 = np.abs(a0) + 1e-3, np.abs(g0) + 1e-3
         return {'kind': 'hmf_direct', 'spectra': _lists(s), 'invvar': _lists(w), 'K': K, 'epsilon': eps, 'nonnegative': nonneg,
-                'init': init, 'a0': _lists(a0), 'g0': _lists(g0), 'steps': steps, 'dataless_columns': cols, 'dataless_spectra': rows,
+                'init': init, 'a0': _lists(a0), 'g0': _lists(g0), 'steps': steps, 'dataless_columns': cols, 'dataless_spectra': rows, 'zero_spectra': zero, 'spike_spectra': spike,
                 'seed': rng.randint(0, 2 ** 31 - 1)}
 
     PCA_SHAPES = ('spectra_eq_nkeep', 'nkeep_eq_1', 'pixels_eq_nkeep_plus_1', 'pixels_eq_spectra', 'pixels_eq_spectra_plus_1')
@@ -888,6 +973,7 @@ class C15(Check):
             if edges[0]:
                 w[:, :edges[0]] = 0
             w[:, M - edges[1]:] = 0
+        zero, spike = _plant_zero_spectra(rng, s, w, K, nonneg)
         seed = 0 if rng.random() < 0.2 else rng.randint(0, 2 ** 31 - 1)      # 0 is falsy but a perfectly good seed
         other = rng.randint(0, 2 ** 31 - 1)
         while other == seed:
@@ -932,7 +1018,7 @@ class C15(Check):
                     break
         return {'kind': 'hmf_order', 'spectra': _lists(s), 'invvar': _lists(w), 'K': K, 'n_iter': rng.randint(2, 4),
                 'epsilon': rng.choice([None, None, 0.0, 0.1, 10.0]), 'nonnegative': nonneg, 'masked_edges': edges,
-                'seed': seed, 'other_seed': other, 'pattern': pattern, 'ops': ops, 'global_seed': rng.randint(0, 2 ** 31 - 1)}
+                'seed': seed, 'other_seed': other, 'pattern': pattern, 'ops': ops, 'zero_spectra': zero, 'spike_spectra': spike, 'global_seed': rng.randint(0, 2 ** 31 - 1)}
 
     def _gen_pca(self, cls, rng, g):
         q = self.tier == 'quick'
@@ -1207,8 +1293,7 @@ class C15(Check):
                 try:
                     res = h.solve()
                 except MonitorViolation as e:
-                    clause, msg, detail = MON.failure or ('contract', str(e), {})
-                    out.fail(clause, '%s [%s; solve #%d, update counts %r]' % (msg, e, rep + 1, MON.updates), **detail)
+                    _contract_failure(out, e, 'solve #%d, update counts %r' % (rep + 1, MON.updates))
                     return
                 finally:
                     self._flush_contract_counters(out, before)
@@ -1222,6 +1307,7 @@ class C15(Check):
                     a.shape, gg.shape, N, K, K, Mt))
                 if not ok:
                     return
+                _check_zero_spectra(out, case, a, 'solve #%d' % (rep + 1))
                 # after the last iteration: unit rms, model unchanged by reorder/normalisation
                 dev = float(np.max(np.abs(R.rms_rows(gg) - 1.0)))
                 MON.worst('rms_deviation', dev)
@@ -1266,6 +1352,7 @@ class C15(Check):
             np.random.set_state(state)
         (a1, g1, u1, c1), (a2, g2, u2, c2) = results
 
+        _count_planted(out, case)
         if case.get('large_n'):
             out.count('hmf_large_n:%d' % case['large_n'])
             if case['large_n'] > 2000:
@@ -1290,8 +1377,7 @@ class C15(Check):
                      ('C(one pixel more)', hmf_factory(np.hstack([s0, s0[:, :1] * 1.25]), np.hstack([w0, w0[:, :1]]), case['seed']))),
                 ], [None], exempt=(frozenset(('acoeff', 'a')), frozenset(('flux', 'g'))), volatile=('model',))
         except MonitorViolation as e:
-            clause, msg, detail = MON.failure or ('contract', str(e), {})
-            out.fail(clause, '%s [%s; live-objects solves]' % (msg, e), **detail)
+            _contract_failure(out, e, 'live-objects solves')
         finally:
             np.random.set_state(state)
             self._flush_contract_counters(out, before)
@@ -1328,8 +1414,7 @@ class C15(Check):
                 try:
                     hs.solve()
                 except MonitorViolation as e:
-                    clause, msg, detail = MON.failure or ('contract', str(e), {})
-                    out.fail(clause, '%s [%s; solve() providing the start of the direct steps]' % (msg, e), **detail)
+                    _contract_failure(out, e, 'solve() providing the start of the direct steps')
                     return
                 a, gg = np.array(hs.a, copy=True), np.array(hs.g, copy=True)
                 out.count('hmf_direct_from_solve')
@@ -1346,8 +1431,7 @@ class C15(Check):
                 try:
                     res = getattr(h, step)()
                 except MonitorViolation as e:
-                    clause, msg, detail = MON.failure or ('contract', str(e), {})
-                    out.fail(clause, '%s [%s; %s]' % (msg, e, label), **detail)
+                    _contract_failure(out, e, label)
                     return
                 except np.linalg.LinAlgError:
                     if step == 'astep' and rows:
@@ -1383,6 +1467,7 @@ class C15(Check):
                                'least-squares solve (allowed %.3g)' % (label, cg, cr, allow))
                     out.count('hmf_direct_reference_optimum_checks')
                 if step.startswith('astep'):
+                    _check_zero_spectra(out, case, res, label)
                     h.a = res
                 else:
                     h.g = res
@@ -1390,6 +1475,7 @@ class C15(Check):
             MON.direct = False
             np.random.set_state(state)
             self._flush_contract_counters(out, before)
+        _count_planted(out, case)
         out.nontrivial = K >= 2 and (bool(cols) or int((w_full == 0).sum()) > 0)
         out.info.update(N=s.shape[0], M=s.shape[1], K=K, epsilon=eps, steps=case['steps'], init=case['init'], dataless_columns=cols,
                         dataless_spectra=rows)
@@ -1434,8 +1520,7 @@ class C15(Check):
                     try:
                         res = h.solve()
                     except MonitorViolation as e:
-                        clause, msg, detail = MON.failure or ('contract', str(e), {})
-                        out.fail(clause, '%s [%s; %s]' % (msg, e, label), **detail)
+                        _contract_failure(out, e, label)
                         return
                     finally:
                         self._flush_contract_counters(out, before)
@@ -1449,6 +1534,7 @@ class C15(Check):
                         label, a.shape, gg.shape, N, K, K, Mt))
                     if not ok:
                         return
+                    _check_zero_spectra(out, case, a, label)
                     if seed not in first:
                         first[seed] = (label, a, gg)
                         continue
@@ -1461,6 +1547,7 @@ class C15(Check):
                                ops=case['ops'][:k + 1])
         finally:
             np.random.set_state(state)
+        _count_planted(out, case)
         out.count('hmf_order_equal_seed_comparisons', ncmp)
         if case['seed'] == 0 and K >= 2:
             out.count('hmf_seed_zero_cases')
